@@ -420,6 +420,27 @@ except ImportError:
     _is_pyodide = False
 
 
+def _stop_constexpr_helper(process):
+    """Kill the helper process and whatever it started; never wait for them indefinitely."""
+    import os
+    import signal
+    import subprocess
+
+    try:
+        os.killpg(process.pid, signal.SIGKILL)
+    except (AttributeError, OSError):
+        # no process groups on this platform, or the group is already gone
+        process.kill()
+    try:
+        process.communicate(timeout=1)
+    except subprocess.TimeoutExpired:
+        # something else still holds the pipes open: do not wait for it
+        for pipe in (process.stdout, process.stderr):
+            if pipe is not None:
+                pipe.close()
+        process.wait(timeout=1)
+
+
 def eval_constexpr(data, call_node):
     import json
 
@@ -480,6 +501,8 @@ __result = __json.dumps({call_node.as_string()})
         stdin=subprocess.DEVNULL,
         stdout=subprocess.PIPE,
         stderr=subprocess.PIPE,
+        # own process group (POSIX), so that anything the function starts can be stopped with it
+        start_new_session=True,
     )
 
     try:
@@ -487,8 +510,7 @@ __result = __json.dumps({call_node.as_string()})
 
     except subprocess.TimeoutExpired:
         # do not leave the helper process running after the timeout
-        process.kill()
-        process.communicate()
+        _stop_constexpr_helper(process)
         raise CompilerError(
             f"Timeout during evaluating constexpr function call {call_node.as_string()}",
             call_node,
